@@ -1170,7 +1170,28 @@ func (e *specEnv) fieldVal(a Val, at types.Type, name string) (Val, types.Type, 
 				if i < 0 {
 					return Val{}, nil, fmt.Errorf("no field %s in %s", name, si.Name)
 				}
-				return Val{T: c.loadStructPath(e.st, si, a.T, []int{i}), S: si.Fields[i].Sort}, si.Fields[i].Type, nil
+				t := c.loadStructPath(e.st, si, a.T, []int{i})
+				// heap well-formedness, as at instruction-level loads: a reference stored in a field is not younger
+				// than the watermark of the state it is read in (only for closed terms: no bound variable inside)
+				// (emitted in functions that claim a frame - pure/assigns - where object ages decide aliasing)
+				if fs := c.Spec; fs != nil && (fs.Pure || fs.HasAssigns) && si.Fields[i].Type != nil && si.Fields[i].Sort == SInt && !strings.Contains(t, "q_") {
+					ft := si.Fields[i].Type
+					switch types.Unalias(ft).Underlying().(type) {
+					case *types.Pointer, *types.Map, *types.Chan:
+						f := fmt.Sprintf("(and (>= %s 0) (<= %s %s))", t, t, c.heapIn(e.st, "$wm"))
+						if !c.wfEmitted[f] {
+							if c.wfEmitted == nil {
+								c.wfEmitted = map[string]bool{}
+							}
+							c.wfEmitted[f] = true
+							c.gfact(f)
+							// the same in the entry state, for an object that existed then
+							t0, wm0 := c.loadStructPath(c.entry, si, a.T, []int{i}), c.heapIn(c.entry, "$wm")
+							c.gfact(fmt.Sprintf("(=> (and (>= %s 1) (<= %s %s)) (<= %s %s))", a.T, a.T, wm0, t0, wm0))
+						}
+					}
+				}
+				return Val{T: t, S: si.Fields[i].Sort}, si.Fields[i].Type, nil
 			}
 		}
 	}
